@@ -388,3 +388,41 @@ def del_only_retain(ctx, rule="DEL-RETAIN"):
            and "ValueRef" in (t.get("written") or "")]
     ctx.check(not bad, rule, "Delete::exec changes the rows only through retain", "", "Delete::exec also changes the row vector with %s: rows leave the table without their strings being released, or "
               "the remaining rows lose their key order" % bad, f.loc(), fn=f.name, key=rule)
+
+
+def key_set(ctx, rule="KEY-SET"):
+    """the in-batch duplicate test of Insert::exec is on the primary-key vector"""
+    prog = ctx.prog
+    ctx.rule(rule, "in Insert::exec the vector tested and recorded in the batch's own key set is the same primary-key vector that is tested against the stored rows' map "
+                   "(both built from primary_key_indices): two new rows with the same key are refused whatever their other cells are")
+    f = prog.fn(Q + "Insert::exec")
+    S = Sym(prog, f)
+    cs = symcalls(prog, f, S)
+    norm = lambda x: x.replace("&", "").replace("*", "")
+    ck = [norm(c[2][1]) for c in cs if c[1].endswith("BTreeMap::<K, V, A>::contains_key") and "HashMap" not in c[1]]
+    hc = [norm(c[2][1]) for c in cs if c[1].endswith("HashSet::<T, S, A>::contains")]
+    hi = [norm(c[2][1]) for c in cs if c[1].endswith("HashSet::<T, S, A>::insert")]
+    ok = len(hc) == 1 and len(hi) == 1 and hc[0] in ck and hi[0] == hc[0]
+    if ok:
+        # that vector is collected from a map over the key indices
+        cn, ca = call_of(S, hc[0])
+        ok = bool(cn) and cn.endswith("Iterator::collect")
+        if ok:
+            mn, ma = call_of(S, ca[0])
+            ok = bool(mn) and mn.endswith("Iterator::map") and "primary_key_indices" in " ".join(deep_call_names(S, ma[0]))
+    ctx.check(ok, rule, "batch duplicates are detected on the key vector", "", "Insert::exec records %s in its batch set but tests %s against the stored rows: new rows sharing a key but differing elsewhere "
+              "are accepted and overwrite each other" % (hi, ck), f.loc(), fn=f.name, key=rule)
+
+
+def deep_call_names(S, v, depth=0):
+    out = []
+    if depth > 6:
+        return out
+    for m in re.findall(r"call@(\d+):", v):
+        t = S.fn.blocks[int(m)]["term"]
+        if t["t"] == "call":
+            out.append(t.get("resolved") or t.get("callee") or "")
+            for a in t["args"]:
+                out += deep_call_names(S, S.val(a), depth + 1)
+    out += re.findall(r"(internal::[A-Za-z_:]+)\(", v)
+    return out
